@@ -15,7 +15,7 @@ TEXTS = ["", "x", "t√´st", "ùõë", "a b", "0", "20.5", "hello world", "-3", "√Ö√
 VERSION_STRINGS = ["1.4", "1.5", "2.0", "2.1.1", "2.2", "2.2.0", "2.3.2"]
 
 DEFAULT_WEIGHTS = {
-    "present_node": 8, "present_child": 10, "value": 14, "req": 6, "battery": 3, "sketch": 3,
+    "present_node": 8, "present_node_odd": 1, "present_child": 10, "value": 14, "req": 6, "battery": 3, "sketch": 3,
     "heartbeat": 4, "presleep": 4, "time": 2, "config": 2, "idreq": 3, "adopt": 1, "gwready": 1, "discover_resp": 1,
     "internal_other": 2, "stream_cfg": 2, "stream_blk": 2, "stream_bad": 1, "stream_other": 1,
     "unknown_traffic": 4, "invalid_frame": 4, "garbage": 3, "ctl_set": 6, "ctl_fw": 2, "metric": 1,
@@ -127,6 +127,15 @@ class Gen:
         sub = self.rng.choice([17, 18])
         ver = self.rng.choice(VERSION_STRINGS) if self.rng.random() < 0.8 else self.payload("version")
         self.emit_line(f"{nid};255;0;0;{sub};{ver}")
+
+    def g_present_node_odd(self):
+        """A node-level presentation (child 255) with a sensor type and a description: what a child
+        presentation becomes when its child id is corrupted to 0xFF.  Valid frame, no version in it."""
+        nid = self.rng.choice(self.my_nodes) if self.rng.random() < 0.8 else self.rng.choice(NODE_POOL)
+        pmax = tables.PRES_MAX[self.version]
+        sub = self.rng.choice([s for s in range(0, pmax + 1) if s not in (17, 18)])
+        rule = tables.payload_rule(self.version, 0, sub)
+        self.emit_line(f"{nid};255;0;{self.rng.choice([0, 0, 1])};{sub};{self.payload(rule)}")
 
     def g_present_child(self):
         nid = self.a_node()
@@ -478,7 +487,7 @@ class Gen:
         self.emit_line(f"{self.rng.choice([77, 78, 79])};255;3;0;6;0")
 
 
-def make_ops(rng, version, n_ops, weights=None, probes_after_hostile=False, hostile_values=False, scenario=0.0, **kwargs):
+def make_ops(rng, version, n_ops, weights=None, probes_after_hostile=False, hostile_values=False, scenario=0.0, flood=0.0, **kwargs):
     kwargs_scen = scenario
     gen = Gen(rng, version, weights, **kwargs)
     gen.hostile_values = hostile_values
@@ -499,8 +508,27 @@ def make_ops(rng, version, n_ops, weights=None, probes_after_hostile=False, host
         wake = f"{nid};255;3;0;32;500" if version == "2.2" else f"{nid};255;3;0;22;7"
         if gen.v2:
             gen.emit_line(wake)
-        for sub, val in rng.sample([(22, "Min"), (21, "Off"), (2, "1"), (0, "20.5"), (3, "40")], 3):
+        subs = rng.sample([(22, "Min"), (21, "Off"), (2, "1"), (0, "20.5"), (3, "40")], 3)
+        for sub, val in subs:
             gen.emit_line(f"{nid};{cid};1;0;{sub};{val}")
+        if gen.v2 and rng.random() < flood:
+            # a sleeping node that asks a lot between two wake-ups: every withheld answer (also the
+            # seventeenth, also identical ones) is due at the next wake-up, oldest first
+            for _ in range(rng.choice([3, 12, 17, 18, 33, 70])):
+                gen.emit_line(f"{nid};{cid};2;0;{rng.choice(subs)[0]};")
+            gen.emit_line(wake)
+    if dict(gen.weights).get("idreq", 0) > 0 and rng.random() < 0.04:
+        # scenario prefix: the top of the id space - a node with a static id just below the maximum, id
+        # requests up to and beyond 254 (the last assignable id must be handed out, the next request
+        # goes unanswered), and the node that got the last id uses it
+        top = rng.choice([251, 252, 253, 253])
+        gen.emit_line(f"{top};255;0;0;17;{rng.choice(VERSION_STRINGS)}")
+        for _ in range(254 - top + rng.randint(0, 1)):
+            gen.emit_line("255;255;3;0;3;")
+        if 254 in gen.model.nodes:
+            gen.emit_line(f"254;255;0;0;17;{rng.choice(VERSION_STRINGS)}")
+            gen.emit_line("254;1;0;0;6;last")
+            gen.emit_line("254;1;1;0;0;21.5")
     for _ in range(rng.randint(0, 3)):
         gen.g_present_node()
         if rng.random() < 0.8:
